@@ -148,6 +148,15 @@ class Formatter(FormatterInterface):
         if oper.rhs.precedence >= oper.precedence:
             rhs = f"({rhs})"
 
+        # Python chains comparisons (a < b == c means a < b and b == c),
+        # so a comparison inside a comparison always needs parentheses
+        comparisons = (L.EQ, L.NE, L.LT, L.GT, L.LE, L.GE)
+        if isinstance(oper, comparisons):
+            if isinstance(oper.lhs, comparisons) and not lhs.startswith("("):
+                lhs = f"({lhs})"
+            if isinstance(oper.rhs, comparisons) and not rhs.startswith("("):
+                rhs = f"({rhs})"
+
         # Return combined string
         return f"{lhs} {oper.op} {rhs}"
 
